@@ -74,6 +74,61 @@ CHECKS = {
             'two listeners are replayed for each of the event kinds.',
             'Trusted: the reference post-order evaluator (SUM/+/*/unary minus only) and itertools.product order as '
             'bijective base-26.', 'DESIGN.md §5 C10'),
+    'C06': ('exhaustive enumeration of ordered operand pairs over a typed value pool x 5 operators x supply routes, and of '
+            'small arrays, against an exact-rational conversion-table model; ' + K3,
+            'All ordered pairs of 26 scalars of every operand type x + - * / and all pairs of 29 scalars under & are evaluated '
+            'with operands supplied as variables, cells and literals and compared with a reference model (numeric value in '
+            'Fractions, result kind transcribed from the repository tests, commutativity); arrays of length <= 3/4 against '
+            'scalars, equal-length and mismatching arrays, nested 2x2 arrays.',
+            'Trusted: the transcribed result-kind table and the reference classifier; rel 1e-9 / 0.5 ms tolerances. Date '
+            'results below serial 61 are only loosely constrained.', 'DESIGN.md §5 C06'),
+    'C07': ('exhaustive enumeration of all ordered pairs (and, on the computed relation matrix, all triples) of a 26-value '
+            'pool x 6 comparison operators; ' + K3,
+            'The full 26x26 relation matrix for the six operators is computed through the parser (operands as variables, '
+            'cells, literals) and every law of the statement - trichotomy, derived relations, converse, transitivity of < '
+            'and =, type ranking, blank conversions - is checked on every pair / triple.',
+            'Trusted: the reference key (numbers/dates by value, text by code point on lower-case strings, logicals last).',
+            'DESIGN.md §5 C07'),
+    'C11': ('exhaustive enumeration of all numeric lists up to length 4 over a 7-value pool, of all regroupings into '
+            'arguments / (nested) arrays, of criteria x data lists and of error placements, against exact-rational '
+            'definitions; ' + K3,
+            'Every list of length <= 4 over {-3,-1,0,1,2,2.5,4} (hence all permutations and duplicates) is fed to each '
+            'aggregate in every grouping and compared with the textbook definition in Fractions; criteria functions are '
+            'compared with an independent criteria interpreter and wildcard matcher over all criteria of the three forms; '
+            'each error code is placed at each position.',
+            'Trusted: the Fraction reference statistics and the recursive wildcard matcher. MODE on multimodal lists, COUNT '
+            'of non-numeric items, criteria given as numbers are not demanded.', 'DESIGN.md §5 C11'),
+    'C12': ('exhaustive enumeration of truth-value tuples (length <= 6), condition lists, SWITCH case lists, error '
+            'placements and a typed value pool for the predicates, against truth tables; ' + K3,
+            'All tuples of length 1..5 over 8 truth-relevant values (all of length <= 6 in thorough), flat and regrouped '
+            'into nested arrays, all IFS/SWITCH lists up to length 3/4, every error code in every non-short-circuitable '
+            'condition position, and every predicate on a value of every type.',
+            'Trusted: numeric truthiness model; SWITCH equality = spreadsheet equality (TRUE <> 1).', 'DESIGN.md §5 C12'),
+    'C15': ('exhaustive enumeration of all strings of length <= 3 over a 12-character alphabet (+ structured strings to '
+            'length 60) x all counts/starts, all SUBSTITUTE (text, old, new, k) tuples and all item lists, against Python '
+            'string semantics and the algebraic laws evaluated as formulas; ' + K3,
+            'Every short string over an alphabet with ASCII, accented, CJK, space and control characters is sliced with '
+            'every count 0..len+5 and negatives; the laws LEFT&RIGHT=s, MID(s,1,n)=LEFT(s,n), LEN(a&b)=LEN(a)+LEN(b), '
+            'idempotence and CODE(CHAR(n))=n are evaluated as formulas; SUBSTITUTE is compared with a left-to-right '
+            'occurrence scan.',
+            'Trusted: Python slicing/str methods as reference on BMP characters; explicit case table for UPPER/LOWER.',
+            'DESIGN.md §5 C15'),
+    'C16': ('exhaustive enumeration of deterministic argument grids (dyadic rationals, powers of ten, multiples of pi) '
+            'inside and outside each domain, of coercion inputs, of PV parameter products and of every answer of an '
+            'enumerated random source (environment seam); ' + K3,
+            'Each elementary function is evaluated on the whole grid as number, numeric text and logical and compared with '
+            'the math-module value of its defining function; identities are evaluated on the grid; ATAN2 covers all four '
+            'half-axes and the origin; RAND/RANDBETWEEN run under a replaced random source whose every answer is '
+            'enumerated.',
+            'Trusted: stdlib math as reference (rel 1e-9); grids replace the statement\'s "random reals" - nothing is '
+            'claimed off-grid.', 'DESIGN.md §5 C16'),
+    'C18': ('exhaustive enumeration of position-coded arrays up to 4x4 / 8x8 x all index pairs in -10..size+10 x supply '
+            'routes, of all short MATCH arrays x lookup values x match types; ' + K3,
+            'Because every array element encodes its own position, "never another element" is decidable per case; all '
+            '(row, col) pairs including omitted/blank/zero/negative are enumerated for literals, host variables and '
+            'ranges; MATCH is compared with a reference on every sorted array of length <= 5/6 over a 5-value pool and '
+            'every text array over a wildcard-bearing pool.',
+            'Trusted: reference reading of one-dimensional INDEX forms (either axis accepted).', 'DESIGN.md §5 C18'),
 }
 
 NOT_YET = 'check not built yet in this session (see DESIGN.md §5 for the planned bounded-exhaustive check)'
